@@ -5,8 +5,8 @@ workspace.rs leaves the extractor's reach: every sequence of up to N operations 
     add / replace of the five models (n1,a) (n1,b) (n2,a) (n2,b) (n3,bad - parses, does not build), remove of the pairs
     (n1,a) (n1,b) (n2,a) (n2,b) (n9,z) (n9,a) (n1,z), clear, deploy
 
-is run on the real Workspace, followed by the probe  eval a, eval b, deploy, eval a, eval b, eval bad, add of each of the four good models,
-deploy, eval a, eval b;  every answer (ok / err) is compared with a reference written out from the property: a model can be
+is run on the real Workspace, followed by the probe  eval a, eval b, deploy, eval a, eval b, eval bad, eval n1, eval n2 (namespaces name nothing), add of each of the
+four good models, deploy, eval a, eval b, eval n1;  every answer (ok / err) is compared with a reference written out from the property: a model can be
 added iff no stored model has its namespace or its name; remove drops every stored model that has the namespace or the name;
 replace = remove + add; evaluation is possible exactly for the models that were stored at the last deploy and build, no
 successful modification having happened since (a rejected add is not a modification; what a remove that removes nothing does
@@ -26,7 +26,8 @@ GOOD = [('n1', 'a'), ('n1', 'b'), ('n2', 'a'), ('n2', 'b')]
 MODELS = GOOD + [('n3', 'bad')]
 PAIRS = GOOD + [('n9', 'z'), ('n9', 'a'), ('n1', 'z')]   # also a pair that matches a stored model by its name only / by its namespace only
 OPS = ['add:%s,%s' % m for m in MODELS] + ['replace:%s,%s' % m for m in MODELS] + ['remove:%s,%s' % p for p in PAIRS] + ['clear', 'deploy']
-PROBE = ['eval:a', 'eval:b', 'deploy', 'eval:a', 'eval:b', 'eval:bad'] + ['add:%s,%s' % m for m in GOOD] + ['deploy', 'eval:a', 'eval:b']
+# (a model is evaluated by its NAME: a namespace of a deployed model names nothing - eval:n1, eval:n2)
+PROBE = ['eval:a', 'eval:b', 'deploy', 'eval:a', 'eval:b', 'eval:bad', 'eval:n1', 'eval:n2'] + ['add:%s,%s' % m for m in GOOD] + ['deploy', 'eval:a', 'eval:b', 'eval:n1']
 
 
 def reference(ops):
